@@ -1,5 +1,5 @@
 (* C07 - Authenticator data is laid out byte-for-byte as WebAuthn specifies. *)
-From Ctap Require Import Base Schema Wire Typed Procs Inst Tables ProcTables Finite FramingP WireP LayoutP C18P.
+From Ctap Require Import Base Schema Wire Typed Procs Inst Tables ProcTables Finite FramingP WireP LayoutP C18P ObResponseSide.
 Local Open Scope string_scope.
 Local Open Scope Z_scope.
 
